@@ -26,7 +26,7 @@ func init() {
 		Level: "exploration",
 		Rule: "E-lin + E-race: 2-6 client goroutines x 4-10 operations each (Add/Remove/WatchList over 3-4 directories, with and without one Close) record {call, return} around every public API call from one monotonic clock while 1-3 mutator goroutines create/write/rename/delete entries inside those directories and a consumer drains at PRNG pace (in a third of the histories it receives nothing until the clients are done, so the reader is parked); a final WatchList after a sentinel barrier is part of every history; " +
 			"GOMAXPROCS in {1,2,4,16}; PRNG delays at the verif yield points. Each history is checked with porcupine against a sequential model (closed flag + set of watched paths; Add=>nil/ErrClosed, Remove=>nil/ErrNonExistentWatch, WatchList=>exactly the set without duplicates, nil iff closed, Close=>nil); any other result has no transition. " +
-			"The same workload runs under the race detector (reports with a frame in the library are violations). A weaker-oracle variant lets mutators delete/rename/recreate the watched directories themselves: only no race/panic/deadlock, result classes, no duplicates and tables==kernel at the final barrier are checked. " +
+			"The same workload runs under the race detector (reports with a frame in the library are violations). A weaker-oracle variant lets mutators delete/rename/recreate the watched directories themselves: only no race/panic/deadlock, result classes, no duplicates and tables==kernel at the final barrier are checked; half of those histories use recursive watches (switched on through the hook) with directories created, removed and renamed below the roots, so that the reader goroutine registers and re-keys watches while the clients call the API (races, panics, deadlocks only). " +
 			"Plus the replace race (4 Watchers in parallel, hundreds of iterations each: delete or rename away the watched file, create a new one under the name, Add it again while an Add spammer and WatchList pollers contend for the lock and the reader works through the old file's notifications; after a sentinel barrier the file must be listed, backed by exactly one kernel mark and report one Chmod). " +
 			"distinct_nontrivial = distinct histories (by operation/result vector) with >=2 genuinely overlapping operations",
 		Assumptions: []string{"porcupine's verdict Unknown (timeout) is inconclusive", "linearizability is checked for histories in which the watched directories themselves are not deleted (the watch would end asynchronously, which a sequential model cannot place)"},
@@ -147,6 +147,21 @@ func c07Case(c *core.Ctx, rng *rand.Rand, dir string, idx int, t0 time.Time, wea
 		paths = append(paths, p)
 		pidx[p] = i
 	}
+	// half of the weak-oracle histories use the (not yet public) recursive watch: the reader goroutine then
+	// registers and re-keys watches itself while the clients call the API. Only races, panics and deadlocks
+	// are judged there.
+	recur := weak && rng.Intn(2) == 0
+	if recur {
+		fsnotify.VerifSetRecurse(true)
+		defer fsnotify.VerifSetRecurse(false)
+		c.Count("weak_variant_recursive_histories", 1)
+	}
+	spell := func(i int) string {
+		if recur {
+			return paths[i] + "/..."
+		}
+		return paths[i]
+	}
 	w, err := fsnotify.NewBufferedWatcher(uint([]int{0, 0, 16}[rng.Intn(3)]))
 	if err != nil {
 		c.Broken(err.Error())
@@ -213,7 +228,18 @@ func c07Case(c *core.Ctx, rng *rand.Rand, dir string, idx int, t0 time.Time, wea
 				case 4:
 					os.Chmod(f, 0o600)
 				case 5:
-					if weak { // delete / rename / recreate the watched directory itself
+					if recur && r.Intn(2) == 0 { // directories come and go below the roots
+						sd := filepath.Join(d, fmt.Sprint("s", r.Intn(3)))
+						switch r.Intn(3) {
+						case 0:
+							os.Mkdir(sd, 0o755)
+							os.WriteFile(filepath.Join(sd, "x"), nil, 0o644)
+						case 1:
+							os.RemoveAll(sd)
+						case 2:
+							os.Rename(sd, filepath.Join(paths[r.Intn(nd)], fmt.Sprint("s", r.Intn(3))))
+						}
+					} else if weak { // delete / rename / recreate the watched directory itself
 						switch r.Intn(3) {
 						case 0:
 							os.RemoveAll(d)
@@ -267,16 +293,16 @@ func c07Case(c *core.Ctx, rng *rand.Rand, dir string, idx int, t0 time.Time, wea
 				ok, dump := core.WithWatchdog(twin.WatchdogTimeout, func() {
 					switch I.Op {
 					case "add":
-						O.Res = errClass(w.Add(paths[I.I]))
+						O.Res = errClass(w.Add(spell(I.I)))
 					case "remove":
-						O.Res = errClass(w.Remove(paths[I.I]))
+						O.Res = errClass(w.Remove(spell(I.I)))
 					case "close":
 						O.Res = errClass(w.Close())
 					case "list":
 						l := w.WatchList()
 						if l == nil {
 							O.List = -1
-						} else {
+						} else if !recur {
 							sort.Strings(l)
 							for j, p := range l {
 								b, known := pidx[p]
@@ -381,6 +407,8 @@ func c07Case(c *core.Ctx, rng *rand.Rand, dir string, idx int, t0 time.Time, wea
 		}
 		if !quiescent {
 			c.Inconclusive("concurrent history: the final sentinel was not delivered before the watchdog; tables not judged")
+		} else if recur {
+			// mkdir -p style bursts are a documented limitation of the unfinished feature: tables not judged
 		} else if bad, _ := twin.Invariant(w); bad != "" {
 			c.Violate("tables-vs-kernel-after-concurrent-history", bad, nil)
 		}
